@@ -59,7 +59,10 @@ class ConstantFoldInterpPattern(RewritePattern):
                 for operand in op.operands
             )
             results = self.interpreter.run_op(op, args)
-        except InterpretationError:
+        except (InterpretationError, AssertionError):
+            # The interpreter rejects operands for which the result is undefined
+            # (division by zero, negative shift amounts) with assertions:
+            # leave the operation in place.
             return
 
         new_ops: list[Operation] = []
